@@ -30,6 +30,9 @@ SEEDS = {
     "C10-1": ("C10", ["c10_conversion_info_enc_bytes_layout_n1"]),
     "C09-2": ("C09", ["c09_boolean_deserialize"]),
     "C12-2": ("C12", ["c12_shifted_laplace_new_modulus"]),
+    "C18-2": ("C18", ["c18_transition_table"]),
+    "C11-2": ("C11", None),
+    "C03-2": ("C03", None),
     "C06-2": ("C06", ["c06_prss_index128_injective", "c06_prss_index128_try_from", "c06_prss_offset_chunks_distinct"]),
     "C17-1": ("C17", None),
     "C01-1": ("C01", None),
